@@ -51,6 +51,8 @@ _MEM = {}
 
 def load(debug_assertions=True, repo=None):
     repo = repo or F.REPO
+    if debug_assertions is True and not F.CONFIG["debug_assertions"]:
+        debug_assertions = False  # the rules are being run for the release profile: "the build" is the one without debug assertions
     cfg = {"debug_assertions": bool(debug_assertions), "overflow_checks": True}
     key = src_hash(repo, cfg)
     if key in _MEM:
